@@ -998,12 +998,14 @@ func ParsePortionSpecific(input string) (*big.Rat, InterpreterError) {
 	} else {
 		fractionMatch := fractionRegex.FindStringSubmatch(input)
 		if len(fractionMatch) != 0 {
-			numerator := fractionMatch[1]
-			denominator := fractionMatch[2]
-			res, ok = new(big.Rat).SetString(numerator + "/" + denominator)
-			if !ok {
+			// numerator and denominator are always decimal numbers
+			// (while big.Rat.SetString would read "010" as an octal number)
+			numerator, numOk := new(big.Int).SetString(fractionMatch[1], 10)
+			denominator, denOk := new(big.Int).SetString(fractionMatch[2], 10)
+			if !numOk || !denOk || denominator.Sign() == 0 {
 				return nil, BadPortionParsingErr{Reason: "invalid fractional format", Source: input}
 			}
+			res = new(big.Rat).SetFrac(numerator, denominator)
 		}
 	}
 	if res == nil {
